@@ -15,7 +15,8 @@ REPO = os.environ.get('VERIF_REPO', '/repo')
 COQ = os.path.join(ROOT, 'coq')
 HARNESS = os.path.join(ROOT, 'harness')
 WORK = os.path.join(ROOT, '.work')
-EVID = os.path.join(ROOT, 'evidence')
+# runs against a scratch checkout (VERIF_REPO, mutation experiments) must not overwrite the evidence of the real tree
+EVID = os.path.join(ROOT, 'evidence') if os.path.realpath(REPO) == '/repo' else os.path.join(WORK, 'evidence-alt')
 GUARD = 'taffy_verif'
 
 sys.path.insert(0, os.path.join(ROOT, 'translator'))
